@@ -345,7 +345,8 @@ func runCertPolicy(t *testing.T, cases []map[string]interface{}, ev *vEvents) {
 	ids := map[string]bool{}
 	for _, c := range cases {
 		k := vMap(c, "key")
-		if _, isMut := k["raw"]; vBool(k, "wf") && !isMut {
+		_, isMut2 := k["rawb64"]
+		if _, isMut := k["raw"]; vBool(k, "wf") && !isMut && !isMut2 {
 			ids[vStr(k, "id")] = true
 		}
 	}
@@ -409,6 +410,11 @@ func (w *vWorld) execCertPolicy(c map[string]interface{}) (map[string]interface{
 	if raw, ok := key["raw"]; ok { // mutation sample: text supplied by the driver
 		keyText = fmt.Sprint(raw)
 		delete(kf, "raw")
+		// the recorded case carries the exact bytes (a re-run of this row must send the same thing)
+		kf["rawb64"] = base64.StdEncoding.EncodeToString([]byte(keyText))
+	} else if b64, ok := key["rawb64"]; ok {
+		b, _ := base64.StdEncoding.DecodeString(fmt.Sprint(b64))
+		keyText = string(b)
 	} else if vBool(key, "wf") {
 		m := vKeyByID(kid)
 		switch format {
